@@ -211,6 +211,48 @@ pub fn run() {
 }
 """
 
+# A scope without the standard prelude: every name the generated code needs has to come through an absolute path
+# (method-call syntax on `AsRef` / `Borrow` needs those traits in scope).
+NO_PRELUDE = """#![no_implicit_prelude]
+pub struct App { pub k: i32 }
+#[::entrait::entrait(pub FnTr)] /*@inv*/
+fn free<D>(deps: &D, a: i32) -> i32 { a + 1 }
+#[::entrait::entrait(pub ModTr)]
+pub mod m { pub fn in_mod<D>(deps: &D, a: i32) -> i32 { a + 2 } }
+#[::entrait::entrait] pub trait Leaf { fn leaf(&self, a: i32) -> i32; fn as_ref(&self) -> i32; }
+impl Leaf for App { fn leaf(&self, a: i32) -> i32 { a + self.k } fn as_ref(&self) -> i32 { 40 } }
+#[::entrait::entrait(delegate_by = ref)] pub trait DynLeaf: 'static { fn dleaf(&self, a: i32) -> i32; fn borrow(&self) -> i32; }
+impl DynLeaf for App { fn dleaf(&self, a: i32) -> i32 { a + 4 } fn borrow(&self) -> i32 { 41 } }
+pub struct RefApp(pub App);
+impl ::core::convert::AsRef<dyn DynLeaf> for RefApp { fn as_ref(&self) -> &(dyn DynLeaf + 'static) { &self.0 } }
+#[::entrait::entrait(delegate_by = Borrow)] pub trait BorLeaf: 'static { fn bleaf(&self, a: i32) -> i32; }
+impl BorLeaf for App { fn bleaf(&self, a: i32) -> i32 { a + 5 } }
+impl ::core::borrow::Borrow<dyn BorLeaf> for RefApp { fn borrow(&self) -> &(dyn BorLeaf + 'static) { &self.0 } }
+pub trait Super { fn same(&self) -> i32; }
+impl Super for App { fn same(&self) -> i32 { 1 } }
+impl<T: Super> Super for ::entrait::Impl<T> { fn same(&self) -> i32 { Super::same(&**self) } }
+#[::entrait::entrait] pub trait Sub: Super { fn same(&self) -> i32; }
+impl Sub for App { fn same(&self) -> i32 { 2 } }
+#[::entrait::entrait(InvImpl, delegate_by = DelegateInv)] pub trait Inv { fn inv(&self, a: i32) -> i32; }
+pub struct T1;
+#[::entrait::entrait] impl InvImpl for T1 { pub fn inv<D>(deps: &D, a: i32) -> i32 { a + 6 } }
+impl DelegateInv<Self> for App { type Target = T1; }
+pub fn run() {
+    let app = ::entrait::Impl::new(App { k: 3 });
+    ::vrt::phase("free"); let r = FnTr::free(&app, 1); ::vrt::result(&r);
+    ::vrt::phase("in_mod"); let r = ModTr::in_mod(&app, 1); ::vrt::result(&r);
+    ::vrt::phase("leaf"); let r = Leaf::leaf(&app, 1); ::vrt::result(&r);
+    ::vrt::phase("as_ref"); let r = Leaf::as_ref(&app); ::vrt::result(&r);
+    let rapp = ::entrait::Impl::new(RefApp(App { k: 0 }));
+    ::vrt::phase("dleaf"); let r = DynLeaf::dleaf(&rapp, 1); ::vrt::result(&r);
+    ::vrt::phase("borrow"); let r = DynLeaf::borrow(&rapp); ::vrt::result(&r);
+    ::vrt::phase("bleaf"); let r = BorLeaf::bleaf(&rapp, 1); ::vrt::result(&r);
+    ::vrt::phase("sub_same"); let r = Sub::same(&app); ::vrt::result(&r);
+    ::vrt::phase("inv"); let r = Inv::inv(&app, 1); ::vrt::result(&r);
+}
+"""
+NO_PRELUDE_EXPECT = ["2", "3", "4", "40", "5", "41", "6", "2", "7"]
+
 MARKER_NAMED = """
 %s
 #[::entrait::entrait(pub Sync)] /*@inv*/
@@ -279,7 +321,14 @@ def run(tier, seed):
             drv = [Case("c19_nostd_driver", NOSTD_DRIVER, meta={"family": "no_std"})]
         st = selftest.case("selftest_c19" + label)
         ws = core.Workspace(PROP, label, unimock=feature, deps=("async-trait",), extra_crates=extra)
-        allc = [x for p in pairs for x in p] + [named, named_h] + drv + [st]
+        # pinned input of a recorded finding (K16): an item of the invoking scope named like a parameter name the macro invents
+        kpin = Case("c19%s_known_generated_name" % label, """#[allow(non_camel_case_types)] pub struct arg0;
+#[::entrait::entrait(pub Subj)] /*@inv*/
+fn subj<D>(deps: &D, _: i32, b: i32) -> i32 { b }
+pub fn run() {}
+""", meta={"family": "known-pin", "pin": "generated_param_name_captured"})
+        noprel = Case("c19%s_no_prelude" % label, NO_PRELUDE, meta={"family": "no_prelude"})
+        allc = [x for p in pairs for x in p] + [named, named_h, noprel] + drv + [st, kpin]
         ws.extend(allc)
         ws.write()
         try:
@@ -293,7 +342,7 @@ def run(tier, seed):
             by["c19_nostd_lib"] = Case("c19_nostd_lib", NOSTD_LIB, meta={"family": "no_std"})
             drv = []
             ws = core.Workspace(PROP, label, unimock=feature, deps=("async-trait",))
-            ws.extend([x for p in pairs for x in p] + [named, named_h, st])
+            ws.extend([x for p in pairs for x in p] + [named, named_h, noprel, st, kpin])
             ws.write()
             b = ws.build()
         ws.run(b["exes"])
@@ -341,6 +390,23 @@ def run(tier, seed):
                     rep.violation(h.id, "bare-name:" + ",".join(sorted({x[0] for x in bad})),
                                   "generated code refers to %s through a path relative to the invoking scope: %s" % (sorted({x[0] for x in bad}), bad[0][1]))
             rep.bucket("families", fam)
+        by[kpin.id] = kpin
+        if kpin.removed is not None:
+            d = (kpin.removed["diags"] or [{}])[0]
+            rep.violation(kpin.id, "generated-name-captured:%s" % d.get("code"), "a unit struct of the invoking scope named `arg0` captures the parameter name the macro generated: %s" % d.get("message", "")[:200],
+                          pinned="generated_param_name_captured")
+        by[noprel.id] = noprel
+        if noprel.removed is not None:
+            for d in (noprel.removed["diags"] or [{}])[:3]:
+                rep.violation(noprel.id, "no-prelude:%s:%s" % (d.get("code"), d.get("message", "")[:60]),
+                              "in a scope without the prelude (and with trait methods named `as_ref` / `borrow` / like a supertrait's method) the expansion does not compile: %s" % d.get("message", "")[:300])
+        else:
+            res = [p_["result"] for p_ in (noprel.runrec.get("bin") or {}).get("phases", [])]
+            if res != NO_PRELUDE_EXPECT:
+                rep.violation(noprel.id, "no-prelude:behaviour", "results %s, expected %s" % (res, NO_PRELUDE_EXPECT))
+            else:
+                rep.bump("no_prelude_case_ok")
+        rep.count(noprel.sig(), True)
         for c in (named, named_h):
             by[c.id] = c
             if c.removed is not None:
